@@ -771,7 +771,10 @@ class SecureSequenceTimer:
                 + 2 * self.latency_tolerance_ms / 1000
             ):
                 timer_value = await waiter_fut
-            self.update(new_value=timer_value)
+            if self._clock_difference == 0 or timer_value > self.current_timer_value():
+                # the own clock is replaced by the group's timer - what authenticated
+                # frames have established meanwhile is never stepped back
+                self.update(new_value=timer_value)
         except TimeoutError:
             # use highest received timer value of TimerNotify or SecureWrapper frames
             ip_secure_logger.warning(
